@@ -322,7 +322,15 @@ def job_cdf(name, d, tier):
             continue
         try:
             dcdf = passes.diff(lift(cdf), r.e)
-            out.append(prove(base + "/d cdf/dr == spectral_rad_pdf", C, dcdf == lift(pdf), T, witness_vars=wv, replay=rb, pairwise=False))
+            hints = []
+            if name == "Exponential" and d == 2:
+                # sqrt(pi w) = sqrt(pi) sqrt(w), w = 1 + (r l)^2: proved on its own (squares of non-negative numbers), then used as a hint
+                SQ = theory.UF["sqrt"]
+                w_ = lift(1.0 + (r * (l / s)) ** 2)
+                lem = SQ(theory.PI * w_) == SQ(theory.PI) * SQ(w_)
+                out.append(prove(base + "/lemma: sqrt(pi w) == sqrt(pi) sqrt(w)", C + [w_ > 0], lem, T, witness_vars=wv, replay=rb, pairwise=False, vacuity=False))
+                hints = [lem]
+            out.append(prove(base + "/d cdf/dr == spectral_rad_pdf", C, dcdf == lift(pdf), T, witness_vars=wv, replay=rb, pairwise=False, extra=hints))
         except NotImplementedError as e:
             out.append(rec(base + "/d cdf/dr == spectral_rad_pdf", "error", detail=str(e)))
         c0 = cdf0[0] if cdf0 is not None else None
